@@ -62,8 +62,12 @@ FINDINGS = {  # stable keys; attributed only by the matchers in `attribute`
     "z": "pruned-polygon-loses-z", "soft": "non-hard-requirement-used-for-pruning", "loop": "containment-erosion-retry-loop",
     "offset": "containment-intersects-base-although-offset-exceeds-inradius", "wrap": "relative-heading-range-not-normalised",
     "clip": "voxel-dilation-clipped-to-grid", "gon": "pruned-circle-is-inscribed-polygon",
+    "touch": "rh-pruning-asserts-on-non-polygon-cell-intersection",
     "cansee": "cansee-point-rotated-before-translated",
 }
+
+
+WALK_BOUND = 10 ** 4  # nodes the dependency-cycle check may visit per compile (unchanged tree: at most 160 over 600 programs)
 
 
 class HelperExplosion(Exception):
@@ -141,6 +145,17 @@ def probes(probe):
             wrap(cls, "buffer")
         for name in ("pruneContainment", "pruneRelativeHeading", "pruneVisibility"):
             stage(name)
+        deps_of = P.conditionedDeps
+
+        def walk(samp):  # one call per node the dependency-cycle check of visibility pruning visits
+            probe["walk"] = probe.get("walk", 0) + 1
+            if probe["walk"] > WALK_BOUND:
+                probe["explosion"] = {"helper": "pruning.conditionedDeps (checkConditionedCycle)", "total_calls": probe["walk"], "bound": WALK_BOUND,
+                                      "args": "", "identical_calls": 0}
+                raise HelperExplosion("conditionedDeps")
+            return deps_of(samp)
+        saved.append((P, "conditionedDeps", deps_of))
+        P.conditionedDeps = walk
         yield
     finally:
         for owner, name, orig in reversed(saved):
@@ -148,16 +163,22 @@ def probes(probe):
 
 
 def compile_prog(P, on, seed, probe):
+    """Knob on: the tree as it is.  Knob off: translator.usePruning False AND the relation extraction that only feeds pruning
+    (scenic.syntax.relations.inferRelationsFrom, called while requirements are compiled whatever usePruning says) switched off,
+    so that an error raised by the extraction is an effect of the knob too."""
     import scenic
+    import scenic.syntax.relations as rel
     import scenic.syntax.translator as tr
-    old = tr.usePruning
+    old, infer = tr.usePruning, rel.inferRelationsFrom
     tr.usePruning = on
+    if not on:
+        rel.inferRelationsFrom = lambda *a, **k: None
     np.random.seed(seed % (1 << 32))
     try:
         with patched_random(SeededRNG(seed)), probes(probe):
             return scenic.scenarioFromString(P.text, mode2D=P.mode2D)
     finally:
-        tr.usePruning = old
+        tr.usePruning, rel.inferRelationsFrom = old, infer
 
 
 def generate(sc, n, cap, seed):
@@ -397,6 +418,9 @@ def attribute(P, clause, info, probe):
         if flat(s.base) and (info.get("how") == "polygon-z" or info.get("z_only")) and s.base.zs[0] != 0:
             return FINDINGS["z"]  # regionFromShapelyObject: the result of PolygonalRegion.intersect has z = 0
     if clause == "pruning-reports-infeasible" and info.get("phase") == "compile":
+        if info["where"][-1:] == ["feasibleRHPolygon"] and info["exception"].startswith(
+                tuple("AssertionError: " + g for g in ("LINESTRING", "MULTILINESTRING", "POINT", "MULTIPOINT", "GEOMETRYCOLLECTION", "MULTIPOLYGON"))):
+            return FINDINGS["touch"]  # feasibleRHPolygon asserts that a non-empty cell intersection is a single Polygon
         if "pruneRelativeHeading" in info["where"] and P.cells:
             return rh_causes(P, None, None)
     if clause == "feasible-position-pruned-away" and s is not None:
@@ -473,7 +497,7 @@ def run(tape):
                                                 "knob_off_scenes": len(scenes_off), "knob_off_iterations": its_off})
         else:
             stats["unjudged:knob-on-compile-failed-but-no-knob-off-scene"] = 1
-    stats["helper-calls"] = probe.get("calls", 0)
+    stats["helper-calls"], stats["cycle-check-nodes-visited"] =probe.get("calls", 0), probe.get("walk", 0)
     sample["helper_calls"], sample["pruned_by"] = probe.get("calls", 0), probe.get("stages", {})
     if on is None:
         return done()
